@@ -34,11 +34,13 @@ pub struct Cfg {
     pub partial_const: bool,
     /// C17: now and then two txs of one program carry exactly the same name
     pub dup_tx_names: bool,
+    /// C10: now and then the same UTxO is assigned to two input blocks (what a client can hand to apply_inputs)
+    pub share_utxo_between_blocks: bool,
 }
 
 impl Default for Cfg {
     fn default() -> Self {
-        Cfg { cardano_pct: 10, redeemers: true, risky_pct: 25, boundary_ints: false, max_txs: 2, balanced: false, min_utxo: false, max_cases: 4, datum_pct: 60, mint_pct: 40, datum_focus: false, redeemer_focus: false, partial_const: false, dup_tx_names: false }
+        Cfg { cardano_pct: 10, redeemers: true, risky_pct: 25, boundary_ints: false, max_txs: 2, balanced: false, min_utxo: false, max_cases: 4, datum_pct: 60, mint_pct: 40, datum_focus: false, redeemer_focus: false, partial_const: false, dup_tx_names: false, share_utxo_between_blocks: false }
     }
 }
 
@@ -1575,11 +1577,27 @@ pub fn world(g: &Generated, ti: usize, rng: &mut Rng, cfg: &Cfg) -> World {
     let collateral = if g.txs[ti].has_collateral {
         let mut assets = Assets::new();
         assets.insert(None, BigInt::from(rng.range(5_000_000, 50_000_000)));
-        vec![UtxoV { txid: fresh_txid(rng, 250), index: rng.below(3), address: rand_address(rng, false, None), assets, datum: None }]
+        // one UTxO usually; now and then several (a set: its members must come out in one canonical order)
+        let n = if rng.chance(1, 4) { 2 + rng.usize(3) } else { 1 };
+        let address = rand_address(rng, false, None);
+        (0..n)
+            .map(|k| {
+                let mut a = assets.clone();
+                if k > 0 {
+                    a.insert(None, BigInt::from(rng.range(5_000_000, 50_000_000)));
+                }
+                UtxoV { txid: fresh_txid(rng, 250 - k as u8), index: rng.below(3), address: address.clone(), assets: a, datum: None }
+            })
+            .collect()
     } else {
         vec![]
     };
     drop(sem);
+    if cfg.share_utxo_between_blocks && inputs.len() >= 2 && rng.chance(1, 12) {
+        let keys: Vec<String> = inputs.keys().cloned().collect();
+        let shared = inputs[&keys[0]][0].clone();
+        inputs.get_mut(&keys[1]).unwrap()[0] = shared;
+    }
     w.inputs = inputs;
     w.collateral = collateral;
     w
